@@ -10,7 +10,7 @@ from .. import racetrace, tlc, tracecheck
 from ..core import Violation
 from ..tlaparse import parse_value, to_json
 
-C01_CLAUSES = {"Barrier", "AtMostOnce", "ExactlyOnceAtEnd", "CompleteOnce", "CompletedByNamed", "CompletedByEnds", "NoSpuriousFailure", "NoCrossElementCut", "NoStall", "NoHang"}
+C01_CLAUSES = {"Barrier", "AtMostOnce", "ExactlyOnceAtEnd", "CompleteOnce", "CompletedByNamed", "CompletedByEnds", "CompletedByCuts", "NoSpuriousFailure", "NoCrossElementCut", "NoStall", "NoHang"}
 C07_CLAUSES = {"SampleConservation", "AllSamplesAtRaceControl", "OnlyFullQueueDrops", "FinalRecords"}
 
 _ACT = re.compile(r"^/\\ act = (\[.*?\])\s*$", re.M | re.S)
